@@ -8,7 +8,7 @@ import SciVerif.Model.Chan
 import SciVerif.Tie.C12Sem
 import SciVerif.Model.Net
 import SciVerif.Model.NetVal
-import SciVerif.Model.NetFine
+import SciVerif.Model.NetPorts
 /-!
 Line-protocol driver (Tie B): one request per line on stdin (tab separated), one response line.
 It runs the *executable models*, instantiated with the semantics records Tie A regenerated from
@@ -335,14 +335,14 @@ def values (n : Nat) (ins : List (List Nat)) (src : List Nat) (B : Nat) (ms : Li
 end NetRun
 
 namespace FineRun
-open SciVerif.Net SciVerif.NetFine
+open SciVerif.Net SciVerif.NetPorts
 
 def parseOp (n : Nat) (s : String) : Option (FLbl n) :=
   let fin := fun (x : String) => match x.toNat? with | some k => if h : k < n then some (⟨k, h⟩ : Fin n) else none | none => none
   match s.splitOn ":" with
-  | ["r", w, u] => match fin w, fin u with | some w, some u => some (.recv w u) | _, _ => none
+  | ["r", w, i] => match fin w, i.toNat? with | some w, some i => some (.recv w i) | _, _ => none
   | ["c", v] => (fin v).map .create
-  | ["s", v, w] => match fin v, fin w with | some v, some w => some (.send v w) | _, _ => none
+  | ["s", w, i] => match fin w, i.toNat? with | some w, some i => some (.send w i) | _, _ => none
   | ["f", v] => (fin v).map .forward
   | ["t", v] => (fin v).map .terminate
   | _ => none
